@@ -20,6 +20,36 @@ type c08Case struct {
 	Pos     int           `json:"pos"`
 	Routing string        `json:"routing"` // none | aen | aeb
 	Via     string        `json:"via"`     // walk | crew
+	Shape   int           `json:"shape,omitempty"` // what "emit m2" emits: index into c08Shapes
+}
+
+// what an action may emit: anything JSON; a message is a message whatever its content
+var c08Shapes = []interface{}{
+	M{"m": 2.0},
+	M{"emit": M{"m": 2.0}},
+	M{"to": "nobody", "m": 2.0},
+	M{"to": []interface{}{"nobody", "m"}, "emit": true},
+	"a string",
+	7.0,
+	[]interface{}{1.0, "a", M{"k": nil}},
+	M{},
+	M{"m": M{"deep": []interface{}{1.0, M{"x": nil}}}, "error": "not an error", "actionError": 1.0},
+	true,
+}
+
+// shaped returns the program with every "emit m2" emitting the shape instead.
+func shaped(p *actlang.Prog, shape int) *actlang.Prog {
+	if shape == 0 || p == nil {
+		return p
+	}
+	q := &actlang.Prog{Native: p.Native}
+	for _, o := range p.Ops {
+		if o.K == actlang.Emit && rstep.Canon(o.V) == rstep.Canon(M{"m": 2.0}) {
+			o.V = clone(c08Shapes[shape])
+		}
+		q.Ops = append(q.Ops, o)
+	}
+	return q
 }
 
 func c08Programs(maxLen int) []*actlang.Prog {
@@ -60,9 +90,9 @@ func c08Spec(cs c08Case) *rstep.ASpec {
 	acts := []*actlang.Prog{nil, def(1, "a3"), def(2, "done"), def(3, "")}
 	var guard *actlang.Prog
 	if cs.Pos == 0 {
-		guard = cs.Prog
+		guard = shaped(cs.Prog, cs.Shape)
 	} else {
-		acts[cs.Pos] = cs.Prog
+		acts[cs.Pos] = shaped(cs.Prog, cs.Shape)
 	}
 	br := func(g *actlang.Prog, target string) []rstep.ABranch {
 		var l []rstep.ABranch
@@ -212,7 +242,7 @@ func C08(c *vh.Ctx) {
 	if c.Shard == 0 {
 		c.Count("programs", int64(len(progs)))
 	}
-	c.Rule("every ECMAScript program = prefix over {emit m1, emit m2, set} (any order, up to the bound) optionally ended by one of {throw, return scalar, return array, loop until cancelled (cancel delivered at tick 3 through the harness context), emit an unserialisable value, return null}; placed as the action at position 1, 2 or 3 of a chain of three emitting actions, or as the guard between them; error routing none / ActionErrorNode / ActionErrorBranches (the handler emits and resumes the chain); observed through Spec.Walk (per-stride Emitted and DoEmitted) and through sio.Crew.ProcessMsg (Result.Emitted); oracle: emitted == concatenation of the emits of the successfully completed actions in execution order. non-trivial = program emits and then fails.")
+	c.Rule("every ECMAScript program = prefix over {emit m1, emit m2, set} (for programs of up to 3 operations m2 also ranges over 10 message shapes: maps with an emit / to / error key, strings, numbers, arrays, empty and nested maps, booleans) (any order, up to the bound) optionally ended by one of {throw, return scalar, return array, loop until cancelled (cancel delivered at tick 3 through the harness context), emit an unserialisable value, return null}; placed as the action at position 1, 2 or 3 of a chain of three emitting actions, or as the guard between them; error routing none / ActionErrorNode / ActionErrorBranches (the handler emits and resumes the chain); observed through Spec.Walk (per-stride Emitted and DoEmitted) and through sio.Crew.ProcessMsg (Result.Emitted); oracle: emitted == concatenation of the emits of the successfully completed actions in execution order. non-trivial = program emits and then fails.")
 	var idx uint64
 	for _, p := range progs {
 		for pos := 0; pos <= 3; pos++ {
@@ -232,6 +262,19 @@ func C08(c *vh.Ctx) {
 					}
 					cs := c08Case{Prog: p, Pos: pos, Routing: routing, Via: via}
 					c08One(c, cs)
+					emitsM2 := false
+					for _, o := range p.Ops {
+						if o.K == actlang.Emit && rstep.Canon(o.V) == rstep.Canon(M{"m": 2.0}) {
+							emitsM2 = true
+						}
+					}
+					if emitsM2 && len(p.Ops) <= 3 {
+						for sh := 1; sh < len(c08Shapes); sh++ {
+							cs.Shape = sh
+							c08One(c, cs)
+						}
+						cs.Shape = 0
+					}
 					if c.WantSample() && len(p.Ops) == maxLen && pos == 2 && p.Model(M{}).Err {
 						c.Sample(cs)
 					}
